@@ -416,30 +416,37 @@ def check_ttinfo(ctx, rule):
 def check_lookup(ctx, rule):
     prog = ctx.prog
     fl = prog.func("tz.tz.tzfile._find_last_transition", rule)
-    calls = [x for x in walk_local(fl.node) if isinstance(x, ast.Call) and src(x.func).startswith("bisect.")]
-    ok = len(calls) == 1 and src(calls[0].func) in ("bisect.bisect_right", "bisect.bisect") and [src(a) for a in calls[0].args] == ["trans_list", "timestamp"]
-    ctx.ob(rule, fl, "the containing period is found with bisect_right: a transition instant belongs to the period it starts", ok, construct="bisect call: %s" % (src(calls[0]) if calls else "?"), analysis="CMP table")
-    rets = [src(x.value) for x in walk_local(fl.node) if isinstance(x, ast.Return)]
-    ctx.ob(rule, fl, "... minus one (index of the last transition at or before the instant); None without transitions", sorted(rets) == ["None", "idx - 1"], construct="_find_last_transition returns", detail=str(rets))
-    sel = [src(n.value) for n in walk_local(fl.node) if isinstance(n, ast.Assign) and src(n.targets[0]) == "trans_list"]
-    ctx.ob(rule, fl, "UTC instants are looked up in the UTC table, wall times in the wall-time table", sel == ["self._trans_list_utc if in_utc else self._trans_list"], construct="table selection", detail=str(sel))
+    from . import summ
+
+    def bis(p):
+        return summ.result_text(p).replace("bisect.bisect(", "bisect.bisect_right(")
+    summ.check_ref(ctx, rule, fl, "the containing period is found with bisect_right in the UTC table for UTC instants and in the wall-time table for wall "
+                   "times (a transition instant belongs to the period it starts), minus one; None without transitions", """
+        if not self._trans_list:
+            return None
+        if in_utc:
+            return bisect.bisect_right(self._trans_list_utc, _datetime_to_timestamp(dt)) - 1
+        return bisect.bisect_right(self._trans_list, _datetime_to_timestamp(dt)) - 1
+        """, construct="_find_last_transition table", outcome=bis)
     gt = prog.func("tz.tz.tzfile._get_ttinfo", rule)
-    cfg = ctx.cfg(gt)
-    facts = ctx.facts(gt)
-    r = {}
-    for n in cfg.live_nodes():
-        if n.kind == "stmt" and isinstance(n.ast, ast.Return):
-            r[src(n.ast.value)] = set(norm(t) for t, tv in facts.at(n) if tv and "idx" in t)
-    okg = norm("idx is None or idx + 1 >= len(self._trans_list)") in r.get("self._ttinfo_std", ()) and "idx<0" in r.get("self._ttinfo_before", ()) and "self._trans_idx[idx]" in r \
-        and "idx<0" not in r.get("self._ttinfo_std", ())
-    ctx.ob(rule, gt, "index -> period: before the first transition the 'before' type, inside the table the transition's own type, at/after the last transition the standard type", okg,
-           construct="_get_ttinfo mapping", detail="" if okg else str(r), analysis="must-hold branch facts")
+    summ.check_ref(ctx, rule, gt, "index -> period: before the first transition the 'before' type, inside the table the transition's own type, at/after the "
+                   "last transition (or without transitions) the standard type", """
+        if idx is None or idx + 1 >= len(self._trans_list):
+            return self._ttinfo_std
+        if idx < 0:
+            return self._ttinfo_before
+        return self._trans_idx[idx]
+        """, construct="_get_ttinfo mapping")
     d = prog.func("tz.tz.tzfile.dst", rule)
-    dcfg = ctx.cfg(d)
-    df = ctx.facts(d)
-    z = [n for n in dcfg.live_nodes() if n.kind == "stmt" and isinstance(n.ast, ast.Return) and src(n.ast.value) == "ZERO" and ("tti.isdst", False) in df.at(n)]
-    ctx.ob(rule, d, "dst() is zero wherever the data marks standard time", len(z) == 1, construct="tzfile.dst: not isdst -> ZERO")
-    ctx.ob(rule, d, "... and the period's dstoffset otherwise", any(isinstance(x, ast.Return) and src(x.value) == "tti.dstoffset" for x in walk_local(d.node)), construct="tzfile.dst: return tti.dstoffset")
+    summ.check_ref(ctx, rule, d, "dst() is zero wherever the data marks standard time and the period's dstoffset otherwise", """
+        if dt is None:
+            return None
+        if not self._ttinfo_dst:
+            return ZERO
+        if not self._find_ttinfo(dt).isdst:
+            return ZERO
+        return self._find_ttinfo(dt).dstoffset
+        """, construct="tzfile.dst table")
     ts = prog.func("tz.tz._datetime_to_timestamp", rule)
     ctx.ob(rule, ts, "timestamps are seconds since the naive epoch 1970-01-01", "return (dt.replace(tzinfo=None) - EPOCH).total_seconds()" in src(ts.node), construct="_datetime_to_timestamp")
 
